@@ -250,6 +250,129 @@ theorem sweep_inv : ∀ (f i : Nat) (s : S2 K), s.cnt ≤ s.a.size → i ≤ s.c
         exact ih (i + 1) s hs (by omega)
     · rw [sweep_stop ops milu tol tmp (f + 1) i s hic]; exact ⟨[], by simp⟩
 
+/-- with enough fuel, every live entry left by the sweep failed the test `|u| <= tol` -/
+theorem sweep_kept : ∀ (f i : Nat) (s : S2 K), s.cnt ≤ s.a.size → i ≤ s.cnt → s.cnt - i ≤ f →
+    (∀ k, k < i → ops.base.leTol (ops.abs1 (s.a[k]!).2) tol = false) →
+    ∀ k, k < (sweep ops milu tol tmp f i s).cnt → ops.base.leTol (ops.abs1 ((sweep ops milu tol tmp f i s).a[k]!).2) tol = false := by
+  intro f
+  induction f with
+  | zero =>
+    intro i s _ hi hf hk k hkc
+    rw [sweep_stop ops milu tol tmp 0 i s (by omega)] at hkc ⊢
+    exact hk k (by omega)
+  | succ f ih =>
+    intro i s hs hi hf hk
+    by_cases hic : i < s.cnt
+    · cases ht : ops.base.leTol (ops.abs1 (s.a[i]!).2) tol with
+      | true =>
+        rw [sweep_drop ops milu tol tmp f i s hic ht]
+        apply ih
+        · simp only [Array.size_setIfInBounds]; omega
+        · simp only; omega
+        · simp only; omega
+        · intro k hki
+          simp only
+          rw [get!_set, if_neg (by omega)]
+          exact hk k hki
+      | false =>
+        rw [sweep_keep ops milu tol tmp f i s hic ht]
+        apply ih (i + 1) s hs (by omega) (by omega)
+        intro k hki
+        by_cases hke : k = i
+        · subst hke; exact ht
+        · exact hk k (by omega)
+    · rw [sweep_stop ops milu tol tmp (f + 1) i s hic]
+      intro k hkc; exact hk k (by omega)
+
+theorem visits_length (z : K) (rows : List Nat) : ∀ d : Array K, (visits z d rows).length = rows.length := by
+  induction rows with
+  | nil => intro d; rfl
+  | cons r rs ih => intro d; simp [visits, ih]
+
+/-- the effective arguments after l.91-93 -/
+def effTol (ops : UOps K R T) (rule : Rule) (dt : T) : T := if rule.nodrop then ops.negOneT else dt
+def effQuota (rule : Rule) (q : Int) (n : Nat) : Int := if rule.nodrop then (n : Int) else q
+
+/-- everything the two rules guarantee, on `dropCore` -/
+theorem dropCore_inv (rule : Rule) (dt0 : T) (q0 : Int) (n : Nat) (dense : Array K) (work : Array R) (rows : List Nat) :
+    ∃ ks : List (Nat × K),
+      let c := dropCore ops rule milu dt0 q0 n pr dense work rows
+      (ks ++ c.1.dropped).Perm (visits ops.zeroK dense rows) ∧
+      c.1.kept.toList = ks.reverse.map (fun e => (pr[e.1]!, e.2)) ∧
+      (∀ e ∈ ks, keepC ops (effTol ops rule dt0) (effQuota rule q0 n) e.2 = true) ∧
+      (∀ e ∈ c.1.dropped, keepC ops (effTol ops rule dt0) (effQuota rule q0 n) e.2 = false) ∧
+      (c.2.1.a.toList.take c.2.1.cnt ++ c.2.1.removed).Perm c.1.kept.toList ∧
+      (∀ e ∈ c.2.1.removed, ∃ tol, c.2.2.1 = some tol ∧ ops.base.leTol (ops.abs1 e.2) tol = true) ∧
+      (∀ tol, c.2.2.1 = some tol → ∀ k, k < c.2.1.cnt → ops.base.leTol (ops.abs1 (c.2.1.a[k]!).2) tol = false) ∧
+      c.2.1.sum = c.2.1.removed.reverse.foldl (fun a e => acc2 ops milu c.1.tmp a e.2)
+        (c.1.dropped.reverse.foldl (fun a e => acc1 ops milu a e.2) ops.zeroK) ∧
+      c.2.1.a.size = c.1.kept.size ∧ c.2.1.cnt + c.2.1.removed.length = c.1.kept.size ∧
+      c.1.dense = rows.foldl (fun d r => d.setIfInBounds r ops.zeroK) dense := by
+  have h5t : ∀ x, keepC ops (effTol ops rule dt0) (effQuota rule q0 n) x =
+      keepC ops (if rule.nodrop then ops.negOneT else dt0) (if rule.nodrop then (n : Int) else q0) x := fun _ => rfl
+  simp only [h5t]
+  unfold dropCore
+  simp only
+  generalize (if rule.nodrop = true then ops.negOneT else dt0) = dt
+  generalize (if rule.nodrop = true then (n : Int) else q0) = q
+  obtain ⟨ks, ds, h1, h2, h3, h4, h5, h6, h7, h8⟩ := pass1_inv ops milu dt q pr rows
+    { kept := #[], dense := dense, sum := ops.zeroK, dmax := ops.base.zeroR, dmin := ops.dminInit, tmp := ops.base.zeroR }
+  simp only [List.append_nil, Array.toList_empty, List.nil_append] at h1 h2 h3 h4 h7 h8
+  refine ⟨ks, ?_⟩
+  have hp : pass1 ops milu dt q pr dense rows =
+      rows.foldl (step1 ops milu dt q pr)
+        { kept := #[], dense := dense, sum := ops.zeroK, dmax := ops.base.zeroR, dmin := ops.dminInit, tmp := ops.base.zeroR } := rfl
+  rw [hp]
+  generalize rows.foldl (step1 ops milu dt q pr)
+        { kept := #[], dense := dense, sum := ops.zeroK, dmax := ops.base.zeroR, dmin := ops.dminInit, tmp := ops.base.zeroR } = s1
+    at h1 h2 h4 h7 h8
+  subst h2
+  by_cases hsec : (rule.secondary && decide (q < (s1.kept.size : Int))) = true
+  · simp only [hsec, if_true]
+    obtain ⟨rm, g1, g2, g3, g4, g5, g6⟩ := sweep_inv ops milu
+      (secTol ops rule q n s1 work).1 s1.tmp s1.kept.size 0
+      { a := s1.kept, cnt := s1.kept.size, sum := s1.sum } (Nat.le_refl _) (Nat.zero_le _)
+    have gk := sweep_kept ops milu
+      (secTol ops rule q n s1 work).1 s1.tmp s1.kept.size 0
+      { a := s1.kept, cnt := s1.kept.size, sum := s1.sum } (Nat.le_refl _) (Nat.zero_le _) (by simp) (by intro k hk; omega)
+    simp only [List.append_nil] at g1
+    simp only [← Array.length_toList, List.take_length] at g2
+    refine ⟨h3, h4, h5, h6, ?_, ?_, ?_, ?_, g5, ?_, h8⟩
+    · rw [g1]; simpa using g2
+    · intro e he; rw [g1] at he; exact ⟨_, rfl, g3 e he⟩
+    · intro tol ht k hk
+      have : (secTol ops rule q n s1 work).1 = tol := by simpa using ht
+      rw [← this]; exact gk k hk
+    · rw [g4, g1, h7]
+    · rw [g1]; exact g6
+  · simp only [hsec, Bool.false_eq_true, if_false]
+    refine ⟨h3, h4, h5, h6, ?_, by simp, by simp, by simp [h7], trivial, by simp, h8⟩
+    simp only [List.append_nil]
+    rw [← Array.length_toList, List.take_length]
+
 end
+
+/-! ### exact arithmetic -/
+
+theorem foldl_add_sum {α} (g : α → Rat) (l : List α) : ∀ init : Rat, l.foldl (fun a e => a + g e) init = init + (l.map g).sum := by
+  induction l with
+  | nil => intro i; simp
+  | cons x t ih => intro i; simp only [List.foldl_cons, List.map_cons, List.sum_cons]; rw [ih]; ring
+
+/-- the summand of a dropped value under each MILU mode -/
+def miluTerm (milu : Milu) (x : Rat) : Rat :=
+  match milu with
+  | .smilu1 | .smilu2 => x
+  | .smilu3 => rabs x
+  | .silu => 0
+
+theorem acc1_rat (nrm2 : Array Rat → Rat) (d0 : Rat) (milu : Milu) (s x : Rat) :
+    acc1 (uopsRat nrm2 d0) milu s x = s + miluTerm milu x := by
+  cases milu <;> simp [acc1, miluTerm, uopsRat]
+
+theorem acc2_rat (nrm2 : Array Rat → Rat) (d0 : Rat) (milu : Milu) (tmp s x : Rat) :
+    acc2 (uopsRat nrm2 d0) milu tmp s x = s + miluTerm milu x := by
+  cases milu <;> simp [acc2, miluTerm, uopsRat]
+
 
 end Slu.IluDropU
